@@ -461,6 +461,8 @@ def val_eq(x, y):
         if isinstance(x, int) and isinstance(y, int):
             return x == y
         return to_bv(x, 32) == to_bv(y, 32)
+    if isinstance(x, (Tup, Struct)) and type(x) is type(y) and len(x.f) == len(y.f):
+        return b_and(*[val_eq(p, q) for p, q in zip(x.f, y.f)]) if x.f else True
     raise Unsupported("equality of %r and %r" % (x, y))
 
 
@@ -2111,3 +2113,480 @@ def tb_nsstack_new(m, a, c):
     # not worth interpreting; the element itself is built by the crate's own NamespaceMap::default
     f = m.prog.by_key.get("NamespaceMap::default")
     return Struct("NamespaceMapStack", [VecM([m.run_fn(f, [])])])
+
+
+# ---------------------------------------------------------------- generic iterator protocol over the model iterators
+# (so that a change that rewrites a loop with any/all/find/position/map/filter/rev stays inside the encoder's reach)
+class MapIt:
+    __slots__ = ("it", "clo")
+
+    def __init__(self, it, clo):
+        self.it, self.clo = it, clo
+
+
+class EnumM:
+    __slots__ = ("it", "n")
+
+    def __init__(self, it):
+        self.it, self.n = it, 0
+
+
+def pull(m, it):
+    """next item of any model iterator, or None when exhausted"""
+    it = deref(it) if isinstance(it, Ptr) else it
+    if isinstance(it, Iter):
+        if it.kind == "revslice":
+            if it.i > 0:
+                it.i -= 1
+                return Ptr(it.seq, it.i)
+            return None
+        if it.i < len(it.seq):
+            it.i += 1
+            return Ptr(it.seq, it.i - 1) if it.kind == "slice" else it.seq[it.i - 1]
+        return None
+    if isinstance(it, ListIter):
+        if it.i < len(it.items):
+            it.i += 1
+            return it.items[it.i - 1]
+        return None
+    if isinstance(it, FilterM):
+        while True:
+            x = pull(m, it.it)
+            if x is None:
+                return None
+            if m.branch_bool(m.prog.call_closure(m, Ptr([it.clo], 0), [Ptr([x], 0)]), "filter"):
+                return x
+    if isinstance(it, MapIt):
+        x = pull(m, it.it)
+        return None if x is None else m.prog.call_closure(m, Ptr([it.clo], 0), [x])
+    if isinstance(it, EnumM):
+        x = pull(m, it.it)
+        if x is None:
+            return None
+        it.n += 1
+        return Tup([it.n - 1, x])
+    raise Unsupported("iteration over %r" % (it,))
+
+
+def _is_model_iter(x):
+    x = deref(x) if isinstance(x, Ptr) else x
+    return isinstance(x, (Iter, ListIter, FilterM, MapIt, EnumM))
+
+
+def _need_iter(a, c):
+    if not _is_model_iter(a[0]):
+        raise Unsupported("callee %s on %r" % (c, a[0]))
+
+
+@model("*::any")
+def g_any(m, a, c):
+    _need_iter(a, c)
+    while True:
+        x = pull(m, a[0])
+        if x is None:
+            return False
+        if m.branch_bool(m.prog.call_closure(m, Ptr([a[1]], 0), [x]), "any"):
+            return True
+
+
+@model("*::all")
+def g_all(m, a, c):
+    _need_iter(a, c)
+    while True:
+        x = pull(m, a[0])
+        if x is None:
+            return True
+        if not m.branch_bool(m.prog.call_closure(m, Ptr([a[1]], 0), [x]), "all"):
+            return False
+
+
+@model("*::find")
+def g_find(m, a, c):
+    _need_iter(a, c)
+    while True:
+        x = pull(m, a[0])
+        if x is None:
+            return none()
+        if m.branch_bool(m.prog.call_closure(m, Ptr([a[1]], 0), [Ptr([x], 0)]), "find"):
+            return some(x)
+
+
+@model("*::find_map")
+def g_find_map(m, a, c):
+    _need_iter(a, c)
+    while True:
+        x = pull(m, a[0])
+        if x is None:
+            return none()
+        r = m.prog.call_closure(m, Ptr([a[1]], 0), [x])
+        if r.variant == "Some":
+            return r
+
+
+@model("*::position")
+def g_position(m, a, c):
+    _need_iter(a, c)
+    n = 0
+    while True:
+        x = pull(m, a[0])
+        if x is None:
+            return none()
+        if m.branch_bool(m.prog.call_closure(m, Ptr([a[1]], 0), [x]), "position"):
+            return some(n)
+        n += 1
+
+
+@model("*::count")
+def g_count(m, a, c):
+    _need_iter(a, c)
+    n = 0
+    while pull(m, a[0]) is not None:
+        n += 1
+    return n
+
+
+@model("*::last")
+def g_last(m, a, c):
+    _need_iter(a, c)
+    last = None
+    while True:
+        x = pull(m, a[0])
+        if x is None:
+            return none() if last is None else some(last)
+        last = x
+
+
+@model("*::for_each")
+def g_for_each(m, a, c):
+    _need_iter(a, c)
+    while True:
+        x = pull(m, a[0])
+        if x is None:
+            return UNIT
+        m.prog.call_closure(m, Ptr([a[1]], 0), [x])
+
+
+@model("*::map")
+def g_map(m, a, c):
+    _need_iter(a, c)
+    return MapIt(a[0], a[1])
+
+
+@model("*::enumerate")
+def g_enumerate(m, a, c):
+    _need_iter(a, c)
+    return EnumM(a[0])
+
+
+@model("*::filter")
+def g_filter(m, a, c):
+    _need_iter(a, c)
+    return FilterM(a[0], a[1])
+
+
+@model("*::rev")
+def g_rev(m, a, c):
+    _need_iter(a, c)
+    it = a[0]
+    if isinstance(it, Iter) and it.kind in ("slice",):
+        r = Iter(it.seq, "revslice")
+        r.i = len(it.seq)
+        return r
+    items = []
+    while True:
+        x = pull(m, it)
+        if x is None:
+            break
+        items.append(x)
+    return ListIter(items[::-1])
+
+
+@model("*::into_iter")
+def g_into_iter(m, a, c):
+    _need_iter(a, c)
+    return a[0]
+
+
+@model("*::next")
+def g_next(m, a, c):
+    _need_iter(a, c)
+    x = pull(m, a[0])
+    return none() if x is None else some(x)
+
+
+@model("*::collect")
+def g_collect(m, a, c):
+    _need_iter(a, c)
+    if "Vec" not in c:
+        raise Unsupported("collect into %s" % c)
+    items = []
+    while True:
+        x = pull(m, a[0])
+        if x is None:
+            return VecM(items)
+        items.append(x)
+
+
+# FilterM over the older Iter-only model
+def _filter_next2(m, a, c):
+    x = pull(m, a[0])
+    return none() if x is None else some(x)
+
+
+M["<Filter as Iterator>::next"] = _filter_next2
+M["<Map as Iterator>::next"] = _filter_next2
+M["<Enumerate as Iterator>::next"] = _filter_next2
+
+
+# ---------------------------------------------------------------- str patterns
+def _pattern_pred(m, pat):
+    """-> function(char) -> bool/z3 for a char, &[char], [char; N] or closure pattern; None for a &str pattern"""
+    p = deref(pat) if isinstance(pat, Ptr) else pat
+    if isinstance(p, int) or is_sym(p):
+        return lambda ch: ch_eq(ch, p)
+    if isinstance(p, (Arr, VecM, Slice)):
+        items = list(seq_of(p))
+        return lambda ch: b_or(*[ch_eq(ch, q) for q in items])
+    if isinstance(p, Closure):
+        return lambda ch: m.prog.call_closure(m, Ptr([p], 0), [ch])
+    return None
+
+
+@model("core::str::<impl str>::contains", "str::contains")
+def str_contains(m, a, c):
+    s = as_str(a[0]).ch
+    pred = _pattern_pred(m, a[1])
+    if pred is not None:
+        for ch in s:
+            if m.branch_bool(pred(ch), "str::contains"):
+                return True
+        return False
+    n = as_str(a[1]).ch
+    for i in range(len(s) - len(n) + 1):
+        if m.branch_bool(seq_eq(s[i:i + len(n)], n), "str::contains"):
+            return True
+    return len(n) == 0
+
+
+@model("core::str::<impl str>::find", "str::find")
+def str_find(m, a, c):
+    s = as_str(a[0]).ch
+    pred = _pattern_pred(m, a[1])
+    off = 0
+    if pred is not None:
+        for ch in s:
+            if m.branch_bool(pred(ch), "str::find"):
+                return some(off)
+            off += char_len(ch)
+        return none()
+    n = as_str(a[1]).ch
+    for i in range(len(s) - len(n) + 1):
+        if m.branch_bool(seq_eq(s[i:i + len(n)], n), "str::find"):
+            return some(off)
+        off += char_len(s[i])
+    return none()
+
+
+@model("core::str::<impl str>::starts_with", "str::starts_with")
+def str_starts_with(m, a, c):
+    s = as_str(a[0]).ch
+    pred = _pattern_pred(m, a[1])
+    if pred is not None:
+        return bool(s) and m.branch_bool(pred(s[0]), "str::starts_with")
+    n = as_str(a[1]).ch
+    return len(n) <= len(s) and m.branch_bool(seq_eq(s[:len(n)], n), "str::starts_with")
+
+
+@model("core::str::<impl str>::ends_with", "str::ends_with")
+def str_ends_with(m, a, c):
+    s = as_str(a[0]).ch
+    pred = _pattern_pred(m, a[1])
+    if pred is not None:
+        return bool(s) and m.branch_bool(pred(s[-1]), "str::ends_with")
+    n = as_str(a[1]).ch
+    return len(n) <= len(s) and m.branch_bool(seq_eq(s[len(s) - len(n):], n), "str::ends_with")
+
+
+# ---------------------------------------------------------------- more of the container API (association-list maps / sets, Vec)
+def _items(mp):
+    mp = deref(mp)
+    if not isinstance(mp, MapM):
+        raise Unsupported("expected a map, got %r" % (mp,))
+    if "items" not in mp.d and mp.d:
+        raise Unsupported("profiling map used with a symbolic-key operation")
+    return mp.d.setdefault("items", [])
+
+
+for _k in ("get", "contains_key", "insert", "iter", "new"):
+    if "BTreeMap::" + _k in M:
+        M.setdefault("HashMap::" + _k, M["BTreeMap::" + _k])
+M.setdefault("<HashMap as Default>::default", M["BTreeMap::new"])
+M.setdefault("<BTreeMap as Default>::default", M["BTreeMap::new"])
+
+
+@model("BTreeMap::remove", "HashMap::remove")
+def map_remove(m, a, c):
+    items = _items(a[0])
+    k = deref(a[1])
+    for i, it in enumerate(items):
+        if m.branch_bool(val_eq(it[0], k), "Map::remove key"):
+            del items[i]
+            return some(it[1])
+    return none()
+
+
+@model("BTreeMap::len", "HashMap::len")
+def map_len(m, a, c):
+    return len(_items(a[0]))
+
+
+@model("BTreeMap::is_empty", "HashMap::is_empty")
+def map_is_empty(m, a, c):
+    return len(_items(a[0])) == 0
+
+
+@model("BTreeMap::clear", "HashMap::clear")
+def map_clear(m, a, c):
+    _items(a[0])[:] = []
+    return UNIT
+
+
+@model("BTreeMap::keys", "HashMap::keys")
+def map_keys(m, a, c):
+    return ListIter([Ptr(it, 0) for it in _items(a[0])])
+
+
+@model("BTreeMap::values", "HashMap::values")
+def map_values(m, a, c):
+    return ListIter([Ptr(it, 1) for it in _items(a[0])])
+
+
+_old_get_mut = M["BTreeMap::get_mut"]
+
+
+def _map_get_mut(m, a, c):
+    mp = deref(a[0])
+    if "items" in mp.d:
+        k = deref(a[1])
+        for it in mp.d["items"]:
+            if m.branch_bool(val_eq(it[0], k), "Map::get_mut key"):
+                return some(Ptr(it, 1))
+        return none()
+    return _old_get_mut(m, a, c)
+
+
+M["BTreeMap::get_mut"] = _map_get_mut
+M["HashMap::get_mut"] = _map_get_mut
+
+
+@model("HashSet::remove")
+def hashset_remove(m, a, c):
+    s_ = deref(a[0])
+    for i, it in enumerate(s_.items):
+        if m.branch_bool(val_eq(it, a[1]), "HashSet::remove"):
+            del s_.items[i]
+            return True
+    return False
+
+
+@model("HashSet::len")
+def hashset_len(m, a, c):
+    return len(deref(a[0]).items)
+
+
+@model("HashSet::is_empty")
+def hashset_is_empty(m, a, c):
+    return len(deref(a[0]).items) == 0
+
+
+@model("HashSet::clear")
+def hashset_clear(m, a, c):
+    deref(a[0]).items[:] = []
+    return UNIT
+
+
+@model("Vec::remove")
+def vec_remove(m, a, c):
+    if is_sym(a[1]):
+        raise Unsupported("symbolic Vec::remove index")
+    v = V(a[0]).v
+    if a[1] >= len(v):
+        raise Panic("Vec::remove index out of bounds")
+    return v.pop(a[1])
+
+
+@model("Vec::swap_remove")
+def vec_swap_remove(m, a, c):
+    if is_sym(a[1]):
+        raise Unsupported("symbolic Vec::swap_remove index")
+    v = V(a[0]).v
+    if a[1] >= len(v):
+        raise Panic("Vec::swap_remove index out of bounds")
+    x = v[a[1]]
+    v[a[1]] = v[-1]
+    v.pop()
+    return x
+
+
+@model("Vec::truncate")
+def vec_truncate(m, a, c):
+    if is_sym(a[1]):
+        raise Unsupported("symbolic Vec::truncate length")
+    v = V(a[0]).v
+    del v[a[1]:]
+    return UNIT
+
+
+@model("Vec::clear")
+def vec_clear(m, a, c):
+    V(a[0]).v[:] = []
+    return UNIT
+
+
+@model("Vec::with_capacity")
+def vec_with_capacity(m, a, c):
+    return VecM([])
+
+
+@model("Vec::reserve", "Vec::shrink_to_fit")
+def vec_reserve(m, a, c):
+    return UNIT
+
+
+@model("core::slice::<impl [T]>::first")
+def slice_first(m, a, c):
+    s_ = seq_of(a[0])
+    return some(Ptr(s_, 0)) if s_ else none()
+
+
+@model("core::slice::<impl [T]>::contains")
+def slice_contains(m, a, c):
+    for x in seq_of(a[0]):
+        if m.branch_bool(val_eq(x, a[1]), "slice::contains"):
+            return True
+    return False
+
+
+@model("Vec::retain")
+def vec_retain(m, a, c):
+    v = V(a[0]).v
+    keep = []
+    for i in range(len(v)):
+        if m.branch_bool(m.prog.call_closure(m, Ptr([a[1]], 0), [Ptr(v, i)]), "Vec::retain"):
+            keep.append(v[i])
+    v[:] = keep
+    return UNIT
+
+
+@model("Vec::extend", "<Vec as Extend>::extend")
+def vec_extend(m, a, c):
+    v = V(a[0]).v
+    src = a[1]
+    if _is_model_iter(src):
+        while True:
+            x = pull(m, src)
+            if x is None:
+                return UNIT
+            v.append(x)
+    v.extend(list(seq_of(src)))
+    return UNIT
